@@ -23,6 +23,40 @@ theorem C15_never_one_unit (d : Nat) : (humanDurationCount d).1 < units.length -
   simp only [h, if_true]
   exact Nat.le_max_right _ _
 
+/-- **the unit-switching rule, in nanoseconds**: `HumanDuration` uses the largest unit `u` with `d ≥ 1.5·u − next/2`
+(`next` = the next smaller unit): years from 1.5 y − 3.5 d, weeks from 1.5 w − 12 h, days from 1.5 d − 30 min,
+hours from 1.5 h − 30 s, minutes from 89.5 s, seconds below -/
+theorem C15_unit_switch_rule (d : Nat) :
+    (unitIndex d = 0 ∧ 47304000000000000 ≤ d + 302400000000000) ∨
+    (unitIndex d = 1 ∧ d + 302400000000000 < 47304000000000000 ∧ 907200000000000 ≤ d + 43200000000000) ∨
+    (unitIndex d = 2 ∧ d + 43200000000000 < 907200000000000 ∧ 129600000000000 ≤ d + 1800000000000) ∨
+    (unitIndex d = 3 ∧ d + 1800000000000 < 129600000000000 ∧ 5400000000000 ≤ d + 30000000000) ∨
+    (unitIndex d = 4 ∧ d + 30000000000 < 5400000000000 ∧ 90000000000 ≤ d + 500000000) ∨
+    (unitIndex d = 5 ∧ d + 500000000 < 90000000000) := by
+  unfold unitIndex unitIndex.go units YEAR WEEK DAY HOUR MINUTE SECOND NS
+  simp only [unitIndex.go]
+  repeat' split
+  all_goals omega
+
+theorem value_of_index (d : Nat) :
+    humanDurationValue d =
+      (if unitIndex d < 5 then max (roundDiv d (units.getD (unitIndex d) (SECOND, "", "")).1) 2 else roundDiv d (units.getD (unitIndex d) (SECOND, "", "")).1)
+        * (units.getD (unitIndex d) (SECOND, "", "")).1 := by
+  unfold humanDurationValue humanDurationCount
+  simp only [units, List.length_cons, List.length_nil]
+  rfl
+
+/-- **`HumanDuration` is monotone in the duration**: a longer duration never renders as a shorter time -/
+theorem C15_human_duration_monotone (d1 d2 : Nat) (h : d1 ≤ d2) : humanDurationValue d1 ≤ humanDurationValue d2 := by
+  rw [value_of_index, value_of_index]
+  rcases C15_unit_switch_rule d1 with ⟨e1, a1⟩ | ⟨e1, a1⟩ | ⟨e1, a1⟩ | ⟨e1, a1⟩ | ⟨e1, a1⟩ | ⟨e1, a1⟩ <;>
+  rcases C15_unit_switch_rule d2 with ⟨e2, a2⟩ | ⟨e2, a2⟩ | ⟨e2, a2⟩ | ⟨e2, a2⟩ | ⟨e2, a2⟩ | ⟨e2, a2⟩ <;>
+  rw [e1, e2] <;>
+  simp only [units, YEAR, WEEK, DAY, HOUR, MINUTE, SECOND, NS, roundDiv, List.getD_cons_zero, List.getD_cons_succ,
+    Nat.reduceLT, reduceIte, Nat.reduceMul, Nat.lt_irrefl] <;>
+  omega
+
+
 /-- the count is the duration divided by the unit, rounded to the nearest (half up) -/
 theorem C15_round_nearest (d unit : Nat) (hu : 0 < unit) :
     2 * unit * roundDiv d unit ≤ 2 * d + unit ∧ 2 * d + unit < 2 * unit * (roundDiv d unit + 1) := by
